@@ -11,12 +11,20 @@ use serde_json::{json, Map, Value};
 
 use crate::util::s;
 
+/// ~e~ / ~E~ stand for U+00E9 / U+00C9 in the (ASCII) specification sources
+fn real(x: &str) -> String {
+    x.replace("~e~", "\u{e9}").replace("~E~", "\u{c9}")
+}
+fn back(x: &str) -> String {
+    x.replace('\u{e9}', "~e~").replace('\u{c9}', "~E~")
+}
+
 fn source(tpl: &Value) -> String {
     tpl.as_array().unwrap().iter().map(|it| if it[0] == "lit" { it[1].as_str().unwrap().to_string() } else { format!("@{}", it[1].as_str().unwrap()) }).collect()
 }
 
 fn instantiate(tpl: &Value, inst: &Value) -> String {
-    tpl.as_array().unwrap().iter().map(|it| if it[0] == "lit" { it[1].as_str().unwrap().to_string() } else { inst[it[1].as_str().unwrap()].as_str().unwrap().to_string() }).collect()
+    real(&tpl.as_array().unwrap().iter().map(|it| if it[0] == "lit" { it[1].as_str().unwrap().to_string() } else { inst[it[1].as_str().unwrap()].as_str().unwrap().to_string() }).collect::<String>())
 }
 
 fn transformer(name: &str) -> Value {
@@ -59,7 +67,7 @@ fn observe(router: &Router<Rule>, config: &RouterConfig, path: &str, host: Optio
             String::from_utf8_lossy(&o).to_string()
         }
     };
-    json!({"m": true, "loc": get("Location"), "hf": get("X-V"), "bf": bf})
+    json!({"m": true, "loc": back(&get("Location")), "hf": back(&get("X-V")), "bf": back(&bf)})
 }
 
 pub fn run(case: &Value) -> Vec<Value> {
@@ -69,8 +77,16 @@ pub fn run(case: &Value) -> Vec<Value> {
         json!({"name": n, "regex": s(m, "regex"), "transformers": m["chain"].as_array().unwrap().iter().map(|t| transformer(t.as_str().unwrap())).collect::<Vec<Value>>()})
     }).collect();
     let has = |k: &str| !r[k].as_array().unwrap().is_empty();
+    // explicitly declared variables (one per marker, shortest name first, then request derived ones)
+    let mut names: Vec<String> = r["markers"].as_object().unwrap().keys().cloned().collect();
+    names.sort_by(|a, b| a.len().cmp(&b.len()).then(a.cmp(b)));
+    let variables: Vec<Value> = if r["vars"].as_bool().unwrap_or(false) {
+        names.iter().map(|n| json!({"name": n, "type": {"marker": n}})).collect()
+    } else {
+        vec![]
+    };
     let rule_json = json!({
-        "id": "r", "rank": 0, "markers": markers,
+        "id": "r", "rank": 0, "markers": markers, "variables": variables,
         "source": {"path": source(&r["path"]), "host": if has("host") { json!(source(&r["host"])) } else { Value::Null },
                    "headers": if has("hdr") { json!([{"name": "X-K", "type": "match_regex", "value": source(&r["hdr"])}]) } else { Value::Null }},
         "status_code": 301, "target": source(&r["target"]),
